@@ -185,7 +185,7 @@ Print Assumptions C19_side_history.
    remaining statements are object glue and are checked verbatim: *)
 Theorem C19_source_skeletons :
   gen_c19_gridcell_reduce_skeleton_ok && gen_c19_grid_setstate_skeleton_ok
-  && gen_c19_dspace_setstate_skeleton_ok && gen_c19_aset_skeleton_ok = true.
+  && gen_c19_dspace_setstate_skeleton_ok && gen_c19_aset_skeleton_ok && gen_c19_cell_add_remove_skeleton_ok = true.
 Proof. exact skeletons_ok. Qed.
 Print Assumptions C19_source_skeletons.
 
@@ -389,6 +389,57 @@ Theorem C19_agentset_forget : forall w s ss, nth_side (st_sets (w_st w)) s = Som
        st_sides (w_st w') = st_sides (w_st w) /\ st_heap (w_st w') = st_heap (w_st w).
 Proof. exact forget_spec. Qed.
 Print Assumptions C19_agentset_forget.
+
+(* --- round 4: refinement for the world layer ------------------------------------------------------------ *)
+(* one plain world operation, seen from side j: the abstract state moves by the abstract machine of Model/Copy.v on the
+   operation actually performed (`weffect`: a refused operation on a FixedAgent - also one removed with its cell pointer left
+   behind -, a user attribute, a hand-made connection: none; move_relative along a hand-made connection: the move to its
+   target; PlaceFixed: the placement; agent.remove(): leaving the cell) *)
+Theorem C19_world_step_refines : forall w o j sd,
+  Inv12 (w_st w) -> plain o = true -> nth_error (st_sides (w_st w)) j = Some sd ->
+  exists sd', nth_error (st_sides (w_st (fst (wstep w o)))) j = Some sd' /\
+    absf (st_heap (w_st (fst (wstep w o)))) sd'
+    = match weffect w o with
+      | Some o' => if touches o' j then fst (astep (absf (st_heap (w_st w)) sd) o') else absf (st_heap (w_st w)) sd
+      | None => absf (st_heap (w_st w)) sd
+      end.
+Proof. exact wstep_refines. Qed.
+Print Assumptions C19_world_step_refines.
+
+(* a copy of the space or of the model starts in the abstract state of its source, whatever travelled in the registry, and
+   changes no existing side *)
+Theorem C19_world_copy_refines : forall w src root sd m,
+  Inv12 (w_st w) -> nth_side (st_sides (w_st w)) src = Some sd -> model_of w src = Some m ->
+  Nat.leb MAX_SIDES (length (st_sides (w_st w))) = false ->
+  let w' := fst (wcopy w src root) in
+  (exists sd2, nth_error (st_sides (w_st w')) (length (st_sides (w_st w))) = Some sd2 /\
+               absf (st_heap (w_st w')) sd2 = absf (st_heap (w_st w)) sd) /\
+  (forall j sdj, nth_error (st_sides (w_st w)) j = Some sdj ->
+     nth_error (st_sides (w_st w')) j = Some sdj /\ absf (st_heap (w_st w')) sdj = absf (st_heap (w_st w)) sdj).
+Proof. exact wcopy_refines. Qed.
+Print Assumptions C19_world_copy_refines.
+
+(* C19_world_refinement (the analogue of C19_refinement / C19_side_history for worlds): along EVERY world history without
+   remove_property_layer("empty") the abstract state of side j is the abstract machine run on exactly the operations
+   performed on side j *)
+Theorem C19_world_refinement : forall w ops j sd,
+  Inv12 (w_st w) -> forallb no_delempty ops = true -> nth_error (st_sides (w_st w)) j = Some sd ->
+  exists sd', nth_error (st_sides (w_st (wrun_states w ops))) j = Some sd' /\
+    absf (st_heap (w_st (wrun_states w ops))) sd'
+    = afinal (absf (st_heap (w_st w)) sd) (filter (fun o' => touches o' j) (weffects w ops)).
+Proof. exact world_side_history. Qed.
+Print Assumptions C19_world_refinement.
+
+(* non-vacuity: a history with a FixedAgent that is removed (ghost pointer: further placements refused), a hand-made
+   connection followed by move_relative, and a model copy; the performed operations are what the theorem says *)
+Example C19_example_world_refinement :
+  let ops := [PlaceFixed 0 5 0; Inner (Move 0 1 0); Connect 0 0 900 3; Inner (RelMove 0 1 900); Kill 0 5; PlaceFixed 0 5 2;
+              WCopy 0 0 1; Inner (RelMove 1 1 900)] in
+  forallb no_delempty ops = true /\
+  weffects (init_world ex_case) ops = [Move 0 5 0; Move 0 1 0; Move 0 1 3; Leave 0 5; RelMove 1 1 900] /\
+  map snd (map (fun k => wstep (wrun_states (init_world ex_case) (firstn k ops)) (nth k ops (SForget 9))) [5%nat; 7%nat])
+  = [[-1; E_FIXED]; [-1; E_NODIR]].
+Proof. vm_compute. repeat split. Qed.
 
 (* --- non-vacuity / documented refutations (round 3) --- *)
 (* a world in which agent 6 has left the grid and agent 7 was removed from the model; then the SPACE is deep-copied: the model
